@@ -84,6 +84,7 @@ OUTER:
 func (s *Writer) introduceSegment(next *segmentIntroduction, introduceSnapshotEpoch uint64) error {
 	atomic.AddUint64(&s.stats.TotIntroduceSegmentBeg, 1)
 	defer atomic.AddUint64(&s.stats.TotIntroduceSegmentEnd, 1)
+	verifSegmentIntroducing(s, next)
 
 	root := s.currentSnapshot()
 	defer func() { _ = root.Close() }()
@@ -241,6 +242,7 @@ func (s *Writer) introducePersist(persist *persistIntroduction, introduceSnapsho
 func (s *Writer) introduceMerge(nextMerge *segmentMerge, introduceSnapshotEpoch uint64) {
 	atomic.AddUint64(&s.stats.TotIntroduceMergeBeg, 1)
 	defer atomic.AddUint64(&s.stats.TotIntroduceMergeEnd, 1)
+	verifMergeIntroducing(s, nextMerge)
 
 	root := s.currentSnapshot()
 	defer func() { _ = root.Close() }()
@@ -345,6 +347,7 @@ func (s *Writer) replaceRoot(newSnapshot *Snapshot, persistedCh chan error, pers
 	}
 	rootPrev := s.root
 	s.root = newSnapshot
+	verifRootReplaced(s, newSnapshot)
 	if s.root != nil {
 		atomic.StoreUint64(&s.stats.CurRootEpoch, s.root.epoch)
 	}
